@@ -9,7 +9,7 @@ def execReader (stream op : String) (a : List String) : String :=
   match stream, op, a with
   | "frame", "run", [s, _] =>
     let ms := Reader.connLoop cmap (unhex s)
-    (String.intercalate " " (s!"n={ms.length}" :: ms.map fun m => toHexField (m.bytes cmap))).trimAscii.toString
+    (String.intercalate " " (s!"n={ms.length}" :: ms.map fun m => toHexField (m.bytes cmap))).trimAscii.toString ++ " closed=1"
   | "udpbuf", "run", [n, b] =>
     match Reader.udpParse cmap (unhex b) (parseNat n) with
     | some m => s!"ok {toHexField (m.bytes cmap)} pool+2"
